@@ -28,6 +28,8 @@ def _gen_cls(classes, nq, nt):
         for i in range(n):
             cls = classes[i % len(classes)]
             out.append(opzoo.GENERATORS[cls](rng))
+        if 'CartesianSamplingOp' in classes:
+            out.extend(opzoo.fixed_cart_cases())
         return out
     return gen
 
@@ -209,7 +211,38 @@ def gen_wavelets(rng, tier):
     return out
 
 
+def gen_fourier_ops(rng, tier):
+    from props import C03
+    cs = C03.gen_fourier(rng, 'quick')[: (24 if tier == 'quick' else 36)]
+    for c in cs:
+        c['cls'] = 'FourierOp'
+    return cs
+
+
+def impl_fourier_op(c):
+    from props import C03
+    try:
+        op = C03.build_fourier(c)
+    except NotImplementedError:
+        return {'skip': True}
+    in_shape = [1, 1, *c['recon']]
+    F, G, out_shape = opzoo.dense(op, in_shape)
+    ip = _inner_product_check(op, in_shape, out_shape, torch.complex128)
+    return {'ip': ip, 'F': [[[v.real, v.imag] for v in col] for col in F.T.tolist()], 'G': [[[v.real, v.imag] for v in col] for col in G.T.tolist()],
+            'in': in_shape, 'out': out_shape}
+
+
+def oracle_fourier_op(c, o):
+    if isinstance(o, dict) and o.get('skip'):
+        return None
+    return oracle_adjoint(dict(c, cls='FourierOp'), o)
+
+
+TOL['FourierOp'] = 1e-9   # the Kaiser-Bessel interpolation pair of torchkbnufft is an exact adjoint pair (measured 3e-15)
+
 FAMILIES = [
+    Family('fourier_op_adjoint', gen_fourier_ops, impl_fourier_op, None, '', None, oracle_fourier_op,
+           descr=lambda c: {'cls': 'FourierOp', 'kind': c['kind']}, theorem='(implementation-level identity G = F^H; FFT path modelled under C03)'),
     Family('dense_modelled', _gen_cls(list(opzoo.MODELLED), 56, 1400), impl_dense, coq_dense, PREAMBLE, cmp_dense, oracle_adjoint,
            nontrivial=lambda c: True, descr=descr, shard=40,
            theorem='C01_zeropad, C01_matrix, C01_sensitivity, C01_density_compensation, C01_cartesian_sampling, C01_finite_difference, C01_rearrange, C01_along_axis'),
